@@ -175,3 +175,49 @@ PROPS["C03"] = {
                       "note": "all (kind, position, target) triples of the whole 2700-table family"}],
     },
 }
+
+MERGE_DSO = {"VF_MERGE_DSO": {"src": "harness/aux/merge_dso.c", "flags": ["-shared", "-fPIC", "-O1", "-o"], "suffix": ".so"}}
+
+PROPS["C04"] = {
+    "manifest": {
+        "level_text": ("Generated source families over a tiny key universe (keys collide 2-6 ways; empty key; empty sources; tables and "
+                       "user-defined sources that free old buffers on every call) x {no merge function, concatenating merge function, "
+                       "merge function failing at call j} x {no dupsort, bytewise, reverse}. Values are unique tokens, so the oracle "
+                       "sees whether each source value was folded exactly once. Observed through iteration, mtbl_source_write and the "
+                       "mtbl_merge tool with a test DSO. Exploration."),
+        "level_note": TRUST, "technique": PBT + "; reference model (sorted union with token-multiset values) and callback-count invariant",
+    },
+    "src": "props/C04.cpp", "tools": True, "aux": MERGE_DSO,
+    "level": "exploration",
+    "rule": ("case = (0-6 sources with keys of <= 3 symbols over a 4-symbol alphabet incl. the empty key, merge option, dupsort "
+             "option, observation path). Non-trivial: some key occurs in >= 2 sources, or a source is empty, or the empty key is "
+             "present. distinct by FNV-1a of the serialised case."),
+    "expect_tags": ["key_in_2plus_sources", "fold_depth_3plus", "empty_source", "empty_key", "user_defined_source", "merge_0",
+                    "merge_1", "merge_2", "merge_callback_failed", "dupsort_1", "dupsort_2", "path_1", "path_2", "no_sources"],
+    "assumptions": TABLE_ASSUME,
+    "tiers": {
+        "quick": [{"mode": "rc", "cases": 2500, "max_size": 100}],
+        "thorough": [{"mode": "rc", "cases": 60000, "max_size": 100}],
+    },
+}
+
+PROPS["C05"] = {
+    "manifest": {
+        "level_text": ("Model-based history testing through mtbl_merger_source: the model is one table holding the merged content "
+                       "(values compared as token multisets); next/seek histories on all four iterator kinds (1-3 interleaved "
+                       "iterators) and the derived lookup set of C02 are compared step by step. Exploration."),
+        "level_note": TRUST, "technique": PBT + "; stateful model-based testing (cursor model over the merged reference table)",
+    },
+    "src": "props/C05.cpp",
+    "level": "exploration",
+    "rule": ("case = (source family of C04 with the concatenating merge function, dupsort option, 1-3 iterator specs, <= 30 ops with "
+             "targets relative to the model cursor, optional derived lookup set). Non-trivial: >= 2 sources with different key sets and "
+             "a history containing at least one next and one seek."),
+    "expect_tags": ["sources_with_different_key_sets", "keys_needing_merge", "seek_to_key_just_returned", "backward_seek",
+                    "seek_after_failure", "lookups_through_merger_source", "kind_0", "kind_1", "kind_2", "kind_3", "user_defined_source"],
+    "assumptions": TABLE_ASSUME,
+    "tiers": {
+        "quick": [{"mode": "rc", "cases": 2500, "max_size": 100}],
+        "thorough": [{"mode": "rc", "cases": 60000, "max_size": 100}],
+    },
+}
